@@ -1,2 +1,3 @@
 THEOREMS = {"ZkProofs.C18": ['Zk.C18_batch_recalculate_schedule_free', 'Zk.C18_tasks_write_disjoint_keys', 'Zk.C18_cellwise_fill_order_free', 'Zk.C18_cellwise_fill_spec', 'Zk.C18_retry_bounded'],
-            "ZkProofs.C16Reopen": ['Zk.C16_current_source_opens_through_retry', 'Zk.C16_current_source_reopen_keeps_tree']}
+            "ZkProofs.C16Reopen": ['Zk.C16_current_source_opens_through_retry', 'Zk.C16_current_source_reopen_keeps_tree'],
+            "ZkProofs.C18Qap": ['Zk.C18_qap_outcomes_agree', 'Zk.C18_qap_length', 'Zk.C18_qap_only_error_is_domain', 'Zk.C18_qap_row_evaluation']}
